@@ -463,7 +463,9 @@ func Run(t *testing.T, s *Spec) {
 			col.Seeds = append(col.Seeds, seed)
 		}
 		curFlags = runFlags{}
+		markCurrent(s, env, seed, plan)
 		vs := safeExecute(t, s, plan, col)
+		clearCurrent(s, env)
 		col.Tick()
 		col.MarkRun(s.Hash(plan), curFlags.nontrivial)
 		for _, v := range vs {
@@ -502,6 +504,27 @@ func Run(t *testing.T, s *Spec) {
 	col.write(s.Prop, env, time.Since(start).Seconds(), s.Meta)
 	if unknownFound {
 		os.Exit(1)
+	}
+}
+
+// markCurrent leaves the plan being executed on disk: if code of the system
+// under test crashes the whole process (an unrecovered panic on one of its own
+// goroutines), the driver turns this file into the replay file of a
+// "process-crash" violation.
+func markCurrent(s *Spec, env *Env, seed uint64, plan any) {
+	if env.OutDir == "" {
+		return
+	}
+	raw, _ := json.Marshal(plan)
+	rf := ReplayFile{Property: s.Prop, Engine: s.Engine, Seed: seed, Tier: env.Tier, Violation: Violation{Class: "process-crash"}, Plan: raw}
+	b, _ := json.Marshal(rf)
+	os.MkdirAll(env.OutDir, 0o755)
+	os.WriteFile(filepath.Join(env.OutDir, fmt.Sprintf("%s.w%02d.current.json", s.Prop, env.Worker)), b, 0o644)
+}
+
+func clearCurrent(s *Spec, env *Env) {
+	if env.OutDir != "" {
+		os.Remove(filepath.Join(env.OutDir, fmt.Sprintf("%s.w%02d.current.json", s.Prop, env.Worker)))
 	}
 }
 
